@@ -346,6 +346,15 @@ def _ensure_aggregate(ctx, agg_uuid):
 def _set_aggregates(context, resource_provider, provided_aggregates,
                     increment_generation=False):
     rp_id = resource_provider.id
+    if not increment_generation:
+        # Without the generation compare-and-swap at the end nothing else
+        # would notice that the provider has been deleted since it was read,
+        # and the associations written below would refer to no provider.
+        sel = sa.select(_RP_TBL.c.id).where(_RP_TBL.c.id == rp_id)
+        if not context.session.execute(sel).first():
+            raise exception.NotFound(
+                'No resource provider with uuid %s found' %
+                resource_provider.uuid)
     # When aggregate uuids are persisted no validation is done
     # to ensure that they refer to something that has meaning
     # elsewhere. It is assumed that code which makes use of the
